@@ -175,6 +175,15 @@ theorem c09_destroy_cancels_waiters (s : State) :
 theorem c09_dead_no_waiters {s : State} (h : Reachable s) (hd : s.alive = false) : s.waiters = [] :=
   (reachable_inv h).dead_no_waiters hd
 
+/-- At quiescence (no resolution in flight) the values actually received by the pop futures are exactly the items
+handed out - so with `c09_fifo`: every pushed item has reached exactly one pop future or is still queued, and it is
+queued only while nobody waits. -/
+theorem c09_quiescent_all_delivered {s : State} (h : Reachable s) (hq : s.inflight = []) :
+    (vals s.completed).Perm (delivered s) ∧ (s.waiters ≠ [] → s.items = []) := by
+  have hp := c09_resolution_exactly_once h
+  rw [hq, List.nil_append] at hp
+  exact ⟨hp.filterMap _, (reachable_inv h).never_both⟩
+
 /-- non-vacuity: two consumers parked, two producers, an unblock, a late delivery, destruction -/
 example : Reachable (run init [Op.pop 0, Op.pop 1, Op.push 7 70, Op.pop 0, Op.upop 3, Op.push 8 80, Op.push 7 71,
     Op.deliver 1, Op.pop 1, Op.pop 1, Op.destroy, Op.deliver 0]) := ⟨_, rfl⟩
@@ -193,6 +202,10 @@ open Cocls.Q
 the `queue<void>` model is the image of the `queue<T>` model (every observable result included, see `step_abs`). -/
 theorem c09_void_refines (ops : List Op) : VQ.run VQ.init ops = abs (Q.run Q.init ops) :=
   run_init_abs ops
+
+/-- every single step of `queue<void>` - new state *and* returned result - is the image of the `queue<T>` step -/
+theorem c09_void_step_refines (s : Q.State) (op : Op) :
+    VQ.step (abs s) op = (abs (Q.step s op).1, forgetRes (Q.step s op).2) := step_abs s op
 
 /-- The count is conserved: pushes = counts handed to pops + the counter, under every interleaving. -/
 theorem c09_void_count {t : VQ.State} (h : Reachable t) :
